@@ -447,6 +447,15 @@ func main() {
 		name string
 		f    func()
 	}
+	if report.FreeRun > 0 {
+		gate.FreeRuns = report.FreeRun
+		for _, en := range []string{"sherpa", "olla"} {
+			e1(en, "openai-compatible", 2, -1)
+			e1(en, "vllm", 3, 1)
+		}
+		res.Add("free_runs", int64(gate.FreeRunsDone))
+		res.Finish()
+	}
 	var jobs []job
 	for _, en := range []string{"sherpa", "olla"} {
 		for _, et := range []string{"vllm", "openai-compatible"} {
